@@ -160,14 +160,12 @@ func (fr *Frame) addObl(kind, label string, goal Term, text string, pos string, 
 }
 
 func (fr *Frame) safetyProps() []string {
-	ps := append([]string{}, fr.props...)
-	has := false
-	for _, p := range ps {
-		if p == "C10" {
-			has = true
-		}
+	// automatic safety obligations are decided under the function's primary property and under C10
+	var ps []string
+	if len(fr.props) > 0 {
+		ps = append(ps, fr.props[0])
 	}
-	if !has {
+	if len(ps) == 0 || ps[0] != "C10" {
 		ps = append(ps, "C10")
 	}
 	return ps
